@@ -95,8 +95,8 @@ Definition fu_poll_next (mrg : bool) (u : fu) (t : nat) (w : world) : fu * spoll
   | _ => fu_loop mrg (length (groups u)) u t w
   end.
 
-Definition fu_from_list (mrg : bool) (l : list child) (w : world) : fu * world :=
-  let '(u, w) := if mrg then (fu_empty, w) else fu_with_capacity (Nat.max (length l) (pMinCap P)) w in
+Definition fu_from_list (mrg : bool) (hint : nat) (l : list child) (w : world) : fu * world :=
+  let '(u, w) := if mrg then (fu_empty, w) else fu_with_capacity (Nat.max hint (pMinCap P)) w in
   fold_left (fun uw c => fu_push mrg (fst uw) c (snd uw)) l (u, w).
 
 End WithParams.
